@@ -264,6 +264,25 @@ IsWitnessL(g, h, f, lg, lh, useRoles, useStereo, useChanges) ==
               /\ DOMAIN g.bch[b] = DOMAIN h.bch[b2]
               /\ \A c \in DOMAIN g.bch[b] : MapsInto(f, g.bch[b][c]) /\ DEq(MapD(f, g.bch[b][c]), h.bch[b2][c])
 
+(* f carries every descriptor of g onto a RE-SPELLING of it in h: same class, same parity (also when
+   unspecified), atom tuple related by the symmetry (any permutation when the parity is unspecified).
+   This is the relation "h is g renamed / re-expressed" of C01; IsWitnessL is weaker when a parity is
+   unspecified (an unspecified descriptor matches every descriptor over the same atoms). *)
+IsRespelling(g, h, f) ==
+   /\ { f[a] : a \in DOMAIN g.ast } = DOMAIN h.ast
+   /\ \A a \in DOMAIN g.ast : MapsInto(f, g.ast[a]) /\ DEqStrict(MapD(f, g.ast[a]), h.ast[f[a]])
+   /\ { {f[x] : x \in b} : b \in DOMAIN g.bst } = DOMAIN h.bst
+   /\ \A b \in DOMAIN g.bst : MapsInto(f, g.bst[b]) /\ DEqStrict(MapD(f, g.bst[b]), h.bst[{f[x] : x \in b}])
+   /\ { f[a] : a \in DOMAIN g.ach } = DOMAIN h.ach
+   /\ \A a \in DOMAIN g.ach :
+         /\ DOMAIN g.ach[a] = DOMAIN h.ach[f[a]]
+         /\ \A c \in DOMAIN g.ach[a] : MapsInto(f, g.ach[a][c]) /\ DEqStrict(MapD(f, g.ach[a][c]), h.ach[f[a]][c])
+   /\ { {f[x] : x \in b} : b \in DOMAIN g.bch } = DOMAIN h.bch
+   /\ \A b \in DOMAIN g.bch :
+         LET b2 == {f[x] : x \in b} IN
+         /\ DOMAIN g.bch[b] = DOMAIN h.bch[b2]
+         /\ \A c \in DOMAIN g.bch[b] : MapsInto(f, g.bch[b][c]) /\ DEqStrict(MapD(f, g.bch[b][c]), h.bch[b2][c])
+
 IsWitness(g, h, f, useRoles, useStereo, useChanges) ==
    IsWitnessL(g, h, f, g.el, h.el, useRoles, useStereo, useChanges)
 =============================================================================
